@@ -64,6 +64,29 @@ CHECKS = {
              "F08d, F08e. Trusted: TLC, the 120-line renderer in tools/props/c08.py, gcc as linker.",
         technique="TLA+ operator semantics (TLC enumeration) + trace validation of executed results",
         ref="DESIGN.md section 4 C08"),
+    "C09": dict(
+        engine="BV/Literals",
+        category="model_checking",
+        text="Literals.tla defines the value of every integer spelling (Horner's rule on 16-byte "
+             "values; decimal with _ separators and e-exponents, hex, binary), the fits relation "
+             "per integer type, the stored bytes, the escape table of char / string literals and "
+             "the value of decimal float spellings whose nearest float is determined exactly "
+             "(integers, dyadic fractions). LiteralsMC.tla's state graph enumerates boundary "
+             "values (MAX-1, MAX, MAX+1 of every integer type, 2^31, 2^32, 2^63, 2^64-1, powers of "
+             "ten) x spellings x use sites (annotated, arithmetic with a typed operand, argument, "
+             "unannotated local, unannotated global) x the 12 integer types, every escape letter, "
+             "strings over a component pool; TLC checks that every generated spelling denotes the "
+             "value it was made from. Each case goes to the real front end (accepted iff it fits) "
+             "and, when accepted, is compiled and run; TLC validates every observation "
+             "(TraceLiterals.tla). Unannotated literals are observed as `any` with their run-time "
+             "size and signedness, so their value is judged without fixing their type.",
+        note="6 732 cases quick, strings up to 3 components thorough. Unannotated literals may be "
+             "rejected (the property only demands their value if accepted). Float literals whose "
+             "decimal value is not a dyadic rational (0.1) are not constrained by the spec. "
+             "Trusted: TLC, the renderer in tools/props/c09.py, meta_type_to_u32's size/sign bits "
+             "for the untyped sites.",
+        technique="TLA+ literal semantics (TLC enumeration) + trace validation of acceptance and stored bytes",
+        ref="DESIGN.md section 4 C09"),
     "C12": dict(
         engine="Ty/TyRelLaws",
         category="model_checking",
